@@ -139,4 +139,25 @@ snapprop("C18", "other", "Texel.Properties.C18",
     "kmp_removes_cancelling_pairs is open; the oracle decides each generated case.",
     extra_trusted=["conclusions (a),(b),(c) are explored with exact oracles, not proved"])
 
+PIPE_TRUSTED = [
+    "Model.Pipe is a hand-written state machine of processing.ProcessFeatures (unbuffered channels as joint steps, two wait groups); its concurrency skeleton is compared by decide with the skeleton trgen skel (go/ast, ~200 lines) extracts from processing.go and gpkg.go on every run",
+    "hypothesis of the theorems: a target's WriteFeatures drains its channel until it is closed and then returns",
+    "the Go scheduler, the memory model and the race detector's verdict are outside the model: exercised by the pipe stream (real ProcessFeatures, fake targets of adversarial speeds, GOMAXPROCS 1..16) and go build -race in the thorough tier",
+]
+PROPS["C10"] = dict(level="proof", module="Texel.Properties.C10", translators=["skel"], race=True,
+    technique="Lean 4 theorems on a state machine of the pipeline for any number of targets, streams and schedules (invariant by induction) + extracted concurrency skeleton + runs of the real ProcessFeatures against the model",
+    theorems=["Texel.C10.skeleton_matches", "Texel.C10.C10_deliver_ok", "Texel.C10.C10_other_to_all", "Texel.C10.C10_polygon_iff", "Texel.C10.C10_prefix", "Texel.C10.C10_complete"],
+    streams=["pipe", "piperun"], trusted=PIPE_TRUSTED, design_ref="DESIGN.md §6 C10",
+    level_text="Theorems for every number of targets, every feature stream and every interleaving: what a target has received is always a prefix of the features addressed to it in source order, each once, and is all of them when ProcessFeatures has returned; "
+               "the dispatch (non-polygon to all targets untouched, polygon iff snapping returned that id) yields a well-formed configuration. The model's concurrency skeleton is re-extracted from the source on every run. "
+               "Geometry per target and attribute values are checked on the real pipeline with fake targets (and through real GeoPackage targets in C12/C13, where finding F6 lived).",
+    level_note="Trusted: Lean kernel, the skeleton extractor, the hypothesis that targets drain their channel; runtime scheduling is explored, not proved.")
+PROPS["C11"] = dict(level="proof", module="Texel.Properties.C11", translators=["skel"], race=True,
+    technique="Lean 4 theorems on the pipeline state machine (returns only after all targets are done; no deadlock; every schedule finite) + extracted skeleton + stress runs of the real ProcessFeatures, -race in the thorough tier",
+    theorems=["Texel.C11.C11_return_after", "Texel.C11.C11_progress", "Texel.C11.C11_terminates", "Texel.C11.skeleton_matches"],
+    streams=["pipe", "piperun"], trusted=PIPE_TRUSTED, design_ref="DESIGN.md §6 C11",
+    level_text="Theorems for any number of targets, any stream, any schedule: ProcessFeatures has returned only in states where every target is done and has everything addressed to it; every reachable state that has not returned can step (no deadlock); "
+               "a measure drops on every step (every run ends). close/wait placement is tied by the extracted skeleton. Goroutine leaks, early return and hangs are also looked for on the real code with adversarial speeds and GOMAXPROCS 1..16; the race detector runs in the thorough tier.",
+    level_note="Trusted: Lean kernel, skeleton extractor; real scheduling, memory model and race freedom are outside the theorem (explored).")
+
 NOT_CLAIMED = {}
